@@ -122,6 +122,7 @@ CHECKS = {
         "level_note": "Trusted: SSA->SMT executor, bounded cooperative scheduler (no instruction-level races), FIFO semantics of Go channels as modelled, z3. "
                       "Bounds: <= 2 senders, <= 2 envelopes each, buffers {0,1}, P = 0 / 1; WebSocket: <= 2 messages, 1 / 2 fragmented reads, 1 stall. Real sockets, TLS, gorilla's framing itself (modelled at message level) and payload sizes are outside the claim.",
         "runs": [
+            {"harness": "HarnessC19InProcSend", "reach": ["c19:inproc-peer-gone"]},
             {"harness": "HarnessC04Route", "reach": ["c04:receiver-ran"], "threads": True},
             {"harness": "HarnessC04Pipe", "grid": {"buf": [0, 1], "tbuf": [0, 1]}, "params": {"sched": 1, "senders": 1, "per": 2},
              "reach": ["c04:settled"], "threads": True, "tier": "quick"},
@@ -308,7 +309,9 @@ CHECKS = {
             {"harness": "HarnessC15Poll", "grid": {"op": [0, 1]}, "params": {"polls": 5}, "reach": ["c15:poll-returned"], "tier": "thorough", "qtimeout": 300},
             {"harness": "HarnessC15Block", "grid": {"op": [0, 1, 2, 3, 4, 5, 6, 7, 8, 9, 10, 11], "ctxmode": [0, 1]}, "reach": ["c15:operation-returned"]},
             {"harness": "HarnessC09TCPEncryption", "reach": ["c09:upgraded", "c09:handshake-failed"], "replay_reach": 0},
-            {"harness": "HarnessC15WS", "grid": {"op": [0, 1], "ctxmode": [0, 1]}, "params": {"sched": 1}, "reach": ["c15:ws-operation-returned"], "threads": True},
+            {"harness": "HarnessC05Reuse", "params": {"sched": 1, "P": 0}, "reach": ["c05:second-request-returned"], "threads": True},
+            {"harness": "HarnessC05Match", "params": {"sched": 1, "order": 0, "requesters": 2, "responses": 2}, "reach": ["c05:settled"], "threads": True},
+            {"harness": "HarnessC15WS", "grid": {"op": [0, 1, 2], "ctxmode": [0, 1], "P": [0, 1]}, "params": {"sched": 1}, "reach": ["c15:ws-operation-returned"], "threads": True},
         ],
         "bounds": {"quick": {"poll_iterations": 3}, "thorough": {"poll_iterations": 5}},
         "out": ["gorilla's internals (model at the level of the methods lime-go calls)", "websocket listener / dialer (net/http)", "TLS handshake duration", "lock contention", "wall-clock (time is a symbolic non-decreasing sequence)"],
@@ -428,6 +431,7 @@ CHECKS = {
              "reach": ["c18:closed"], "threads": True, "tier": "quick"},
             {"harness": "HarnessC18StartStop", "grid": {"when": [0, 1], "closeerr": [0, 1]}, "params": {"sched": 1, "P": 0, "listeners": 2},
              "reach": ["c18:closed"], "threads": True, "tier": "quick"},
+            {"harness": "HarnessC13HangUp", "grid": {"who": [0, 1]}, "params": {"sched": 1, "tbuf": 1, "P": 2}, "reach": ["c13:hangup-settled"], "threads": True},
             {"harness": "HarnessC18WS", "params": {"sched": 1, "msgs": 1}, "reach": ["c18:wire-session-settled"], "threads": True, "tier": "quick"},
             {"harness": "HarnessC18WS", "params": {"sched": 1, "msgs": 1, "tcp": 1, "cclock": 1}, "reach": ["c18:wire-session-settled"], "threads": True, "tier": "quick"},
             {"harness": "HarnessC18WS", "grid": {"P": [0, 1]}, "params": {"sched": 1, "msgs": 2, "tcp": 1, "cclock": 1}, "reach": ["c18:wire-session-settled"], "threads": True, "tier": "thorough"},
@@ -459,6 +463,7 @@ CHECKS = {
                       "Busy-looping is an engine-side verdict (not observable natively); its consequences (no fresh session, deaf listener, untruthful send) are "
                       "replayed natively. Back-off sleep timing and repeated faults are outside the claim.",
         "runs": [
+            {"harness": "HarnessC19InProcSend", "reach": ["c19:inproc-peer-gone"]},
             {"harness": "HarnessC19Recover", "grid": {"fault": [0, 2]}, "params": {"sched": 1, "spinok": 1, "early": 1, "inbound1": 0, "P": 1},
              "reach": ["c19:send-after-fault-returned"], "threads": True},
             {"harness": "HarnessC19Recover", "grid": {"fault": [0, 1, 2, 3, 4, 5], "inbound1": [0, 1], "P": [0, 1]}, "params": {"sched": 1, "spinok": 1},
